@@ -131,12 +131,16 @@ def correspond(ctx):
         metas.append(('knots', meta, knots, None))
         # normal equations
         y = rng.normal(0, 1, len(x))
-        for wkind in ('random', 'zeros', 'gap'):
+        for wkind in ('random', 'zeros', 'gap', 'tiny', 'huge'):
             w = rng.uniform(0, 1, len(x))
             if wkind == 'zeros':
                 w[rng.random(len(x)) < 0.5] = 0
             elif wkind == 'gap':
                 w[len(x) // 3: 2 * len(x) // 3] = 0
+            elif wkind == 'tiny':
+                w = w * 2.0 ** -int(rng.integers(55, 90))      # a pure rescaling of the problem
+            elif wkind == 'huge':
+                w = w * 2.0 ** int(rng.integers(30, 60))
             ctx.count('weights:' + wkind)
             try:
                 ps = su.PSpline(basis, 1.0, 1 if nb > 1 else 1) if nb > 1 else None
@@ -176,9 +180,9 @@ def correspond(ctx):
                 for which, cap in zip(('compiled', 'fallback'), got):
                     lhs = cap['lhs']
                     lhs_low = lhs if ps.lower else lhs[len(lhs) // 2:]
-                    sc = max(1.0, float(np.abs(full).max()))
+                    sc = float(np.abs(full).max())      # relative: rescaling the weights rescales the products
                     if lhs_low.shape[1] != nb or not np.allclose(lhs_low[:deg + 1], want[:deg + 1][:lhs_low.shape[0]], rtol=0, atol=1e-11 * sc * len(x)) \
-                            or not np.allclose(cap['rhs'], B.T @ (w * y), rtol=0, atol=1e-11 * sc * len(x)):
+                            or not np.allclose(cap['rhs'], B.T @ (w * y), rtol=0, atol=1e-11 * float(np.max(B.T @ (w * np.abs(y)))) * len(x)):
                         dis.append(Disagreement('c12.btb', f'btb:{which}', f"banded B'WB/B'Wy ({which} path, degree {deg}, {nk} knots, "
                                                 f"{wkind} weights) differ from the explicit products",
                                                 dict(meta, check='btb', y=y.tolist(), w=w.tolist()), True))
